@@ -2,6 +2,7 @@
 from .common import *
 from .pxcommon import *
 from . import c08
+from . import c16 as _c16
 
 ID = "C12"
 PROPS_FILES = ["Props/C12"]
@@ -40,12 +41,23 @@ def gen_cases(rng, tier):
             x0 = rng.randint(0, w - 1); ln = rng.randint(1, w - x0)
             extra = [rng.choice([1, 127, 128, 254, rng.randint(0, 255)])] if kind == 1 else []
         cases.append(px_case(kind, mode, hq, rng.random() < 0.5, rand_color(rng), has_mask, x0, ln, row, extra))
+    # shader-produced sources: pattern / draw_pixmap with bilinear and bicubic filtering (overshoot next to translucent pixels)
+    for s_, a_ in _c16.gen_cases(rng, tier)[:600 if tier == "quick" else 8000]:
+        a_ = list(a_)
+        a_[14] = rng.choice([1, 2, 2])      # bilinear / bicubic
+        a_[4] = 0                           # random contents
+        cases.append((s_, a_))
     return cases
 
 
 def oracle(suite, args, out):
     if out.startswith(("PANIC", "CRASH", "HANG")):
         return "implementation did not return: " + out[:200]
+    if suite == "pat_px":
+        o = ints(out)
+        if len(o) >= 11 and o[3] > 0:
+            return "%d pixels are not premultiplied after a pattern / draw_pixmap draw (first (%d,%d))" % (o[3], o[6], o[7])
+        return None
     c = decode(args)
     if out.strip() == "-1":
         return None
@@ -59,5 +71,13 @@ def oracle(suite, args, out):
     return None
 
 
-relation = c08.relation
-nontrivial_tag = c08.nontrivial_tag
+def relation(suite, args, mo, io):
+    if suite == "pat_px":
+        return mo == io or mo.strip() == "-9"
+    return c08.relation(suite, args, mo, io)
+
+
+def nontrivial_tag(suite, args, out):
+    if suite == "pat_px":
+        return _c16.nontrivial_tag(suite, args, out)
+    return c08.nontrivial_tag(suite, args, out)
